@@ -347,7 +347,46 @@ func c01NumberTexts(c *Ctx) {
 	}
 }
 
+// c01EncoderStreams: one Encoder fed a stream in which some values cannot be encoded (NaN, a channel, an invalid
+// Number, a Marshaler that fails): each Encode returns what encoding/json's returns and the writer has received the
+// same bytes - an encoding error concerns its value only
+func c01EncoderStreams(c *Ctx) {
+	stream := []any{1, "a<b", math.NaN(), map[string]any{"k": make(chan int)}, []int{1, 2}, stdjson.Number("1e"), struct{ A, B int }{1, 2}, math.Inf(-1),
+		map[string]string{"z": "y", "a": "b"}, failingMarshaler{}, nil, true, []any{func() {}}, "end"}
+	for _, html := range []bool{true, false} {
+		for _, ind := range [][2]string{{"", ""}, {"", "  "}, {">", "\t"}} {
+			k := jsonCase{Setting: fmt.Sprintf("encoderstream:%v:%q", html, ind)}
+			var w1, w2 bytes.Buffer
+			e1, e2 := stdjson.NewEncoder(&w1), json.NewEncoder(&w2)
+			e1.SetEscapeHTML(html)
+			e2.SetEscapeHTML(html)
+			e1.SetIndent(ind[0], ind[1])
+			e2.SetIndent(ind[0], ind[1])
+			for i, v := range stream {
+				c.Case()
+				c.Eval(1)
+				r1 := e1.Encode(v)
+				var r2 error
+				if p := protect(func() { r2 = e2.Encode(v) }); p != "" {
+					c.Diverge("C01", "Encoder.Encode(stream)", errStr(r1), p, "", k)
+					return
+				}
+				if (r1 == nil) != (r2 == nil) || !bytes.Equal(w1.Bytes(), w2.Bytes()) {
+					c.Diverge("C01", "Encoder.Encode(stream with values that cannot be encoded)", fmt.Sprintf("value %d: %s, %d bytes written so far", i, errStr(r1), w1.Len()),
+						fmt.Sprintf("%s, %d bytes: %s", errStr(r2), w2.Len(), clipS(w2.String()[min(w2.Len(), max(0, w1.Len()-40)):])), "", k)
+					return
+				}
+			}
+		}
+	}
+}
+
+type failingMarshaler struct{}
+
+func (failingMarshaler) MarshalJSON() ([]byte, error) { return nil, fmt.Errorf("no") }
+
 func c01Numbers(c *Ctx) {
+	c01EncoderStreams(c)
 	c01NumberTexts(c)
 	c01Durations(c)
 	c01Times(c)
@@ -391,6 +430,10 @@ func c01Replay(c *Ctx, raw stdjson.RawMessage) {
 	}
 	if strings.HasPrefix(k.Setting, "duration:") {
 		c01Durations(c)
+		return
+	}
+	if strings.HasPrefix(k.Setting, "encoderstream:") {
+		c01EncoderStreams(c)
 		return
 	}
 	if strings.HasPrefix(k.Setting, "numbertext:") {
@@ -533,7 +576,7 @@ func c01Scenario(c *Ctx, v *jsonVec) {
 	}
 	// null, a value of the wrong kind and an empty object addressed to each name alone (embedded pointers are allocated, or
 	// refused, on the way to the field - before the value is looked at), into fresh targets and into the ones just filled
-	for _, name := range []string{"X", "Y", "Z", "x", "W", "Q"} {
+	for _, name := range []string{"X", "Y", "Z", "x", "W", "Q", "y", "z", "w", "q", "\u0058", "\u017f"} {
 		for _, val := range []string{"null", "7", `"s"`, "{}"} {
 			d := []byte(`{"` + name + `":` + val + `}`)
 			for _, fresh := range []bool{true, false} {
@@ -997,7 +1040,7 @@ func c02Replay(c *Ctx, raw stdjson.RawMessage) {
 	if stdjson.Unmarshal(raw, &k) != nil {
 		return
 	}
-	if k.Setting == "ptrptr" || k.Setting == "durationdoc" {
+	if k.Setting == "ptrptr" || k.Setting == "durationdoc" || k.Setting == "casefold" {
 		c02PtrPtr(c)
 		return
 	}
@@ -1064,7 +1107,69 @@ func c02Durations(c *Ctx) {
 	}
 }
 
+// c02CaseFold: member names that match no field exactly go to the first field, in encoding/json's field order, whose
+// name equals them ignoring case - whatever the depth of embedding the candidates sit at
+type cfBase struct {
+	UserID int `json:"userID"`
+	Name   string
+}
+type cfDeep struct{ cfBase }
+type cfEmbedFirst struct {
+	cfBase
+	UserId int `json:"UserId"`
+	NAME   string
+}
+type cfDirectFirst struct {
+	UserId int `json:"UserId"`
+	NAME   string
+	cfBase
+}
+type cfDeepFirst struct {
+	cfDeep
+	USERID int
+	Name2  string `json:"name"`
+}
+type cfPtr struct {
+	*cfBase
+	Userid int
+	NaMe   string
+}
+
+func c02CaseFold(c *Ctx) {
+	keys := []string{"userid", "USERID", "UserID", "userID", "UserId", "uSERiD", "Userid", "name", "NAME", "Name", "nAME", "NaMe", "\u0075serid", "u\u017ferid", "na\u212ae"}
+	targets := []func() any{func() any { return new(cfEmbedFirst) }, func() any { return new(cfDirectFirst) }, func() any { return new(cfDeepFirst) }, func() any { return new(cfPtr) },
+		func() any { return new(cfDeep) }, func() any { return &[]cfEmbedFirst{{}} }, func() any { return &map[string]cfDeepFirst{} }}
+	for ti, mk := range targets {
+		for _, key := range keys {
+			for _, val := range []string{"7", `"s"`} {
+				doc := `{"` + key + `":` + val + `}`
+				switch ti {
+				case 5:
+					doc = "[" + doc + "]"
+				case 6:
+					doc = `{"m":` + doc + `}`
+				}
+				k := jsonCase{Setting: "casefold", Doc: doc, VI: ti}
+				a, b := mk(), mk()
+				e1 := stdjson.Unmarshal([]byte(doc), a)
+				var e2 error
+				c.Case()
+				c.Eval(1)
+				if p := protect(func() { e2 = json.Unmarshal([]byte(doc), b) }); p != "" {
+					c.Diverge("C02", "json.Unmarshal(names in another case, embedded structs)", errStr(e1), p, "", k)
+					continue
+				}
+				if (e1 == nil) != (e2 == nil) || (e1 == nil && !deepEq(reflect.ValueOf(a).Elem(), reflect.ValueOf(b).Elem())) {
+					c.Diverge("C02", "json.Unmarshal(names in another case, embedded structs)", fmt.Sprintf("%s err=%v", showVal(reflect.ValueOf(a).Elem()), e1),
+						fmt.Sprintf("%s err=%v", showVal(reflect.ValueOf(b).Elem()), e2), "", k)
+				}
+			}
+		}
+	}
+}
+
 func c02PtrPtr(c *Ctx) {
+	c02CaseFold(c)
 	c02Durations(c)
 	type S struct {
 		O **int
